@@ -24,6 +24,7 @@ H = {
  "C03e_2": "reported from the start by R2.6 all-pairs, which only C04 ran; C02 and C03 run the rules of the echo layer as well now",
  "C05e_2": "missed by C05 at first (C01.d only): the slot rule did not see `a..=b` (a RangeInclusive::new call, not an aggregate) as an integer range",
  "C17e_2": "reported from the start by R9.handle, which only C14 ran; C17 runs the handle life-cycle rules as well now",
+ "C07g_1": "reported at first only by C02/C04 (R3.bind-id, for a side effect of the reordering), not by C07; R2.8 now also matches a difference of message values that is XOR-accumulated over the check positions (a loop whose counter indexes the received data below the per-party level) and tested once behind the loop",
 }
 D = {
  "C18d_2": "reported at first (recognition limit of R10.field); resolved: Iterator::find/any/all/position are modelled as the loops they abbreviate inside the validators and Option facts are threaded through tuple slots (DESIGN 12.7); silent now",
@@ -38,6 +39,12 @@ BH = {
  "C07e_3": "reported at first (claimed-bit rule: the verified value is pushed into the opened vector after the check instead of being stored before); corrected: scalars stored or pushed into the opened vector count, up to the variable that receives the selected one of d0 / d1",
  "C18e_2": "reported at first (validate rewritten as `iter().enumerate().find(..)` plus one match on a tuple of facts: R10.field / R10.dup could not see the tests); corrected: find/any/all/position are modelled as loops inside the validators, Option facts are threaded through tuple slots",
 }
+BH.update({
+ "C08g_3": "reported at first (R1.i: `qs.chunks_exact_mut(n).zip(&uvec)` - the own buffer travels in one tuple with the peer's rows and the value-flow graph does not keep the two slots of a zip item apart; the own chunk then reached `split_at_mut(len / 16 * 16)` in AesRng::fill_bytes); corrected for this sink: a position that is the largest multiple of a constant below the container's own length is in range by construction. The slot-insensitivity of zip items remains a limit of the component analysis",
+ "C16g_1": "reported at first (the validate fan-out and its join moved into a new `async fn validate_followers`: R9.compat picked the join of the run fan-out instead, R9.fanout did not see `other_parties()`); corrected: the join is chosen by dominance order, events of a spliced async helper remember where they really sit, the handler's test of the helper's Result counts when the helper cannot turn a failed join into Ok (control C16__validate_helper_swallows_join_error)",
+ "C18g_1": "reported at first (validate split into `Context::expected_inputs_of(p)` / `check_output_parties()`: the receiver `self.circ.input_regs` is a nested place and the flow graph named only its outer field); corrected: a nested place denotes its innermost field",
+ "C18g_2": "reported at first (tuple match with or-pattern on `(input_regs.get(p_own), p_eval < p_max)`, `find(..)`, slice pattern `[]`); corrected: discriminants read from tuple slots, every branch on a flag of an or-pattern must reject, `len == 0` as the emptiness test, raw pointers through a deref do not make the tuple escape",
+})
 for sid, h in BH.items():
     p = "/verif/benign_seeded/%s/meta.json" % sid
     if os.path.exists(p):
